@@ -32,6 +32,10 @@ Section R.
     let '(a, _) := mat_of n (l ++ repeat 0 (4 * n)) in match lu_new a with None => [8] | Some f => 7 :: enc (flat (lu_det f)) end.
   Definition r_inverse (n : nat) (l : list Z) : list Z :=
     let '(vals, _) := rdn (A:=A) (n * n) l in match lu_new (chunk n n vals) with None => [8] | Some f => 7 :: encs (concat (lu_inverse f)) end.
+  Definition r_jacobi (n : nat) (l : list Z) : list Z :=
+    let '(vals, _) := rdn (A:=A) (n * n) l in let '(d, v) := jacobi_eigenvalue (chunk n n vals) 200 in 7 :: encs (d ++ concat v).
+  Definition r_smallest (n : nat) (l : list Z) : list Z :=
+    let '(vals, _) := rdn (A:=A) (n * n) l in let '(e, v) := smallest_ev (chunk n n vals) in 7 :: encs (e :: v).
   Definition r_norm (n : nat) (l : list Z) : list Z := let '(vals, _) := rdn (A:=A) n l in 7 :: enc (flat (norm vals)).
 End R.
 '''
@@ -120,7 +124,7 @@ def lu_scale(A):
 
 
 class Prop(BaseProp):
-    coq_targets = ['ND/Proofs/C12_proofs.vo', 'ND/Proofs/C12_lu.vo', 'ND/Proofs/C12_inv.vo']
+    coq_targets = ['ND/Proofs/C12_proofs.vo', 'ND/Proofs/C12_lu.vo', 'ND/Proofs/C12_inv.vo', 'ND/Proofs/C12_jacobi.vo']
     extra_model_targets = ['ND/Hand/LinAlg.vo']
     n_quick, n_thorough = 300, 4000
 
@@ -191,7 +195,7 @@ class Prop(BaseProp):
         return '%s linalg %s %s %d' % (c['id'], vlib.harness_type_name(ty), c['op'], c['n']) + ''.join(' | ' + ' '.join(vlib.val_to_tokens(v, ty)) for v in c['vals'])
 
     def coq_term(self, c, ty):
-        fn = {'lu_solve': 'r_solve', 'lu_det': 'r_det', 'lu_inverse': 'r_inverse', 'norm': 'r_norm'}[c['op']]
+        fn = {'lu_solve': 'r_solve', 'lu_det': 'r_det', 'lu_inverse': 'r_inverse', 'norm': 'r_norm', 'jacobi': 'r_jacobi', 'smallest_ev': 'r_smallest'}[c['op']]
         zs = []
         for v in c['vals']:
             zs += vlib.val_to_Z(v, ty)
@@ -231,7 +235,9 @@ class Prop(BaseProp):
         raw = vlib.run_harness(exe, [self.harness_line(c, T[c['type']]) for c in cases])
         impl = {c['id']: self.decode_impl(*raw[c['id']], T[c['type']]) for c in cases}
         # the hand model inside Coq (LU, solve, determinant, inverse, norm)
-        mcases = [c for c in cases if c['op'] in ('lu_solve', 'lu_det', 'lu_inverse', 'norm')]
+        # Jacobi: the scalar and nested types only (the function-valued matrices of the vector types' derivative parts are re-evaluated at every use,
+        # which is exponential in the number of sweeps; those types are decided by the identities on the implementation alone)
+        mcases = [c for c in cases if c['op'] in ('lu_solve', 'lu_det', 'lu_inverse', 'norm') or (c['op'] in ('jacobi', 'smallest_ev') and 'Vec' not in c['type'])]
         cdir = vlib.CACHE + '/cases/C12'
         os.makedirs(cdir, exist_ok=True)
         import subprocess
